@@ -157,8 +157,11 @@ func corridorCase(prop string, seed int64, tier string, idx int) *core.Case {
 	}
 	r := rng(prop, seed, tier, idx)
 	k := 1 + r.Intn(12)
-	if r.Intn(8) == 0 {
+	switch r.Intn(16) {
+	case 0, 1:
 		k = 1
+	case 2, 3:
+		k = 13 + r.Intn(48) // long corridors (edges over dozens of layers): deep recursion of the fitter, long funnels
 	}
 	spec := gen.Corridor(r, k, r.Intn(2) == 0)
 	fam := "generated-dyadic"
@@ -221,7 +224,7 @@ func init() {
 		ID:    "C19",
 		Title: "Corridor shortest path is shortest and stays inside",
 		Count: counts(60000, 1000000),
-		Rule: "generated well-formed corridors of 1..12 stacked rectangles; each next rectangle drawn from 9 offset patterns (same, equal left/right edge wider/narrower, " +
+		Rule: "generated well-formed corridors of 1..12 (12 %: 13..60) stacked rectangles; each next rectangle drawn from 9 offset patterns (same, equal left/right edge wider/narrower, " +
 			"widen both, narrow both, shift left/right); half grid-snapped to multiples of 5 (many equal edges), half dyadic; start/end kinds: outer boundary (what phase 5 passes), " +
 			"boundary midpoint, interior, outer corner, vertical side; oracle: end points, containment per rectangle band, length vs visibility-graph Dijkstra; " +
 			"every tenth case instead lays out a graph with long edges using splines routing and judges the corridors phase 5 itself builds, captured through the public monitor; " +
